@@ -690,3 +690,36 @@ def c15(tier, seed):
                                                 'hash iteration order is the same on both sides (insertion order)']
     ck.rule = 'a state = (configuration, tree / layer assignment, pending policy); a transition = one call executed through both APIs (or one stepwise walk); non-trivial = non-empty tree'
     return ck.finish(prog)
+
+
+@prop('C02')
+def c02(tier, seed):
+    from . import c02 as mod
+    from . import transfer
+    ck = Check('C02', tier, seed)
+    prog = load_program()
+    ck.selftest = quick_selftest(prog, seed, 40 if tier == 'quick' else 400, kinds=['phys', 'altphys', 'ovlphys', 'mem'])
+    u = UNIVERSES['U5']()
+    ops = [(op, v) for op in ALL_OPS + ['hopen', 'create_hold', 'append_hold'] for v in u.vars]
+    cases = [{'universe': 'U5', 'shape': sh, 'ops': ops} for sh in shapes(u)]
+    ck.add(run_cases(prog, mod.run_diff_case, cases), 'every primitive/observer/composite on every path from every well-formed tree, MemoryFS vs PhysicalFS@OSM in lock-step')
+    ut = UNIVERSES['UT']()
+    tshapes = [sh for sh in shapes(ut)]
+    if tier == 'quick':
+        tshapes = tshapes[::5]
+    tops = []
+    for op_ in ('copy_file', 'move_file', 'copy_dir', 'move_dir'):
+        for src in ('f', 'a', 'a_b', 'a_b_c', 'x'):
+            for dst in ('x', 'x_b', 'a_b'):
+                if op_ in ('copy_dir', 'move_dir') and (dst == src or dst.startswith(src + '_')):
+                    continue       # destination inside the source: documented non-termination
+                if src != dst:
+                    tops.append((op_, src, dst))
+    cases2 = [{'universe': 'UT', 'shape': sh, 'ops': tops} for sh in tshapes]
+    ck.add(run_cases(prog, mod.run_diff_case, cases2), 'copy/move of files and directories within one instance (PhysicalFS fast paths fs::copy/rename vs the generic stream copy)')
+    ck.bounds = {'universe': 'U5 (all 63 trees) and UT (transfer positions)', 'file_bytes': '0..2 symbolic, shared by both backends', 'steps': 1,
+                 'relative_to': 'the OS contract model of std::fs (mirsym/osm.py), validated against the real kernel by %d selftest scripts in this run' % ck.selftest['scripts'],
+                 'excluded': 'timestamps, message texts, other I/O error kinds, seek on append handles, symlinks/permissions'}
+    ck.assumptions = COMMON_ASSUMPTIONS + ['PhysicalFS runs over the OS contract model (Linux outcomes: ENOENT, EEXIST, ENOTDIR, EISDIR, ENOTEMPTY, EINVAL); the kernel itself is not encoded']
+    ck.rule = 'a state = one well-formed tree built on both backends; a transition = one call executed on both; non-trivial = non-empty tree or root target'
+    return ck.finish(prog)
